@@ -110,7 +110,56 @@ pub fn run_case(c: &Case) -> Result<Outcome, String> {
             Err(p) => return Err(format!("accepted sequence panics through a short-writing sink: {}", panic_message(&p))),
         }
     }
+    // the accepted file streamed through a Merger into a second writer is one more sequence of
+    // inserts (in the order the source yields them, which descends wherever the accepted file
+    // descends across a block boundary): the second writer too must panic or emit sorted blocks
+    for block_size in [usize::MAX, 1024] {
+        stream_through_merger(&bytes, strictly_ascending, block_size)?;
+    }
     Ok(Outcome::Accepted(blocks.len()))
+}
+
+fn stream_through_merger(bytes: &[u8], strictly_ascending: bool, block_size: usize) -> Result<(), String> {
+    use std::io::Cursor;
+    let what = "the accepted file streamed through Merger::write_into_stream_writer";
+    let r = catch_unwind(AssertUnwindSafe(|| -> Result<Option<Vec<u8>>, String> {
+        let cursor = grenad::Reader::new(Cursor::new(bytes)).and_then(|r| r.into_cursor()).map_err(|e| format!("source does not open: {e}"))?;
+        let merger = grenad::Merger::builder(crate::sorter_util::Concat).add(cursor).build();
+        let mut wb = WriterBuilder::new();
+        wb.block_size(block_size);
+        let mut w = wb.memory();
+        match merger.write_into_stream_writer(&mut w) {
+            Ok(()) => w.into_inner().map(Some).map_err(|e| e.to_string()),
+            // reading a file that is not globally sorted may legitimately fail; not this property
+            Err(e) if !strictly_ascending => {
+                let _ = e;
+                Ok(None)
+            }
+            Err(e) => Err(format!("{what} failed: {e}")),
+        }
+    }));
+    match r {
+        Ok(Ok(Some(out))) => {
+            let (_t, blocks) = walk_blocks(&out).map_err(|e| format!("{what} (block size {block_size}) produced a file that does not decode: {e}"))?;
+            for b in &blocks {
+                for w in b.entries.windows(2) {
+                    if w[0].0 >= w[1].0 {
+                        return Err(format!(
+                            "{what} (block size {block_size}): no panic, but the block at offset {} stores key {} right after key {}",
+                            b.offset,
+                            vlib::fmt::short(&w[1].0),
+                            vlib::fmt::short(&w[0].0)
+                        ));
+                    }
+                }
+            }
+            Ok(())
+        }
+        Ok(Ok(None)) => Ok(()),
+        Ok(Err(e)) => Err(e),
+        Err(p) if strictly_ascending => Err(format!("{what} panicked although the keys are strictly ascending: {}", panic_message(&p))),
+        Err(_) => Ok(()),
+    }
 }
 
 fn decode_seq(mut x: usize, len: usize) -> Vec<u8> {
